@@ -1004,7 +1004,8 @@ Section Steps.
     InvU o s ->
     map h_h (s_handlers s') = map h_h (s_handlers s) ->
     o_incs o' = upd_nth k g (o_incs o) ->
-    (forall i, oi_id (g i) = oi_id i /\ oi_when (g i) = oi_when i
+    (forall i, nth_error (o_incs o) k = Some i ->
+               oi_id (g i) = oi_id i /\ oi_when (g i) = oi_when i
                /\ (oi_wire (g i) = oi_wire i
                    \/ (oi_wire i = WOpen /\ oi_wire (g i) = WMaybe /\ In (oi_id i) (s_cancels s')))) ->
     (forall j hr' oi', nth_error (s_handlers s') j = Some hr' -> nth_error (o_incs o') j = Some oi' ->
@@ -1046,7 +1047,7 @@ Section Steps.
     { intros j x Hx. rewrite Hincs in Hx. destruct (Nat.eq_dec k j) as [->|Hne].
       - destruct (nth_error (o_incs o) j) as [y|] eqn:Ey.
         + rewrite (upd_nth_same _ _ _ _ Ey) in Hx. inversion Hx; subst x. exists y.
-          destruct (Hg y) as (G1 & G2 & G3). auto.
+          destruct (Hg y eq_refl) as (G1 & G2 & G3). auto.
         + rewrite (upd_nth_none _ _ _ Ey) in Hx. congruence.
       - rewrite (upd_nth_other _ _ _ _ Hne) in Hx. exists x. auto. }
     assert (HnthO' : forall j y, nth_error (o_incs o) j = Some y ->
@@ -1055,7 +1056,7 @@ Section Steps.
                          /\ (oi_wire x = oi_wire y
                              \/ (oi_wire y = WOpen /\ oi_wire x = WMaybe /\ In (oi_id y) (s_cancels s')))).
     { intros j y Hy. rewrite Hincs. destruct (Nat.eq_dec k j) as [->|Hne].
-      - rewrite (upd_nth_same _ _ _ _ Hy). exists (g y). destruct (Hg y) as (G1 & G2 & G3). auto.
+      - rewrite (upd_nth_same _ _ _ _ Hy). exists (g y). destruct (Hg y Hy) as (G1 & G2 & G3). auto.
       - rewrite (upd_nth_other _ _ _ _ Hne). exists y. auto. }
     assert (Hopen_eq : forall x y, (oi_wire x = oi_wire y
                              \/ (oi_wire y = WOpen /\ oi_wire x = WMaybe /\ In (oi_id y) (s_cancels s'))) ->
